@@ -987,14 +987,19 @@ impl XmlCData {
         self.data = delete_char_range(self.data.as_str(), offset, count);
     }
 
-    pub fn insert(&mut self, offset: usize, data: &str) -> error::Result<()> {
-        fn check(value: &str) -> error::Result<bool> {
-            let new = format!("<![CDATA[{}]]>", value);
-            let (rest, _) = xml_parser::cdsect(new.as_str())?;
-            Ok(rest.is_empty())
-        }
+    fn check(value: &str) -> error::Result<bool> {
+        let new = format!("<![CDATA[{}]]>", value);
+        let (rest, _) = xml_parser::cdsect(new.as_str())?;
+        Ok(rest.is_empty())
+    }
 
-        self.data = insert_char_at(self.data.as_str(), offset, data, check)?;
+    pub fn insert(&mut self, offset: usize, data: &str) -> error::Result<()> {
+        self.data = insert_char_at(self.data.as_str(), offset, data, XmlCData::check)?;
+        Ok(())
+    }
+
+    pub fn replace(&mut self, offset: usize, count: usize, data: &str) -> error::Result<()> {
+        self.data = replace_char_range(self.data.as_str(), offset, count, data, XmlCData::check)?;
         Ok(())
     }
 
@@ -1216,14 +1221,25 @@ impl XmlComment {
         self.comment = delete_char_range(self.comment.as_str(), offset, count);
     }
 
-    pub fn insert(&mut self, offset: usize, comment: &str) -> error::Result<()> {
-        fn check(value: &str) -> error::Result<bool> {
-            let new = format!("<!--{}-->", value);
-            let (rest, _) = xml_parser::comment(new.as_str())?;
-            Ok(rest.is_empty())
-        }
+    fn check(value: &str) -> error::Result<bool> {
+        let new = format!("<!--{}-->", value);
+        let (rest, _) = xml_parser::comment(new.as_str())?;
+        Ok(rest.is_empty())
+    }
 
-        self.comment = insert_char_at(self.comment.as_str(), offset, comment, check)?;
+    pub fn insert(&mut self, offset: usize, comment: &str) -> error::Result<()> {
+        self.comment = insert_char_at(self.comment.as_str(), offset, comment, XmlComment::check)?;
+        Ok(())
+    }
+
+    pub fn replace(&mut self, offset: usize, count: usize, comment: &str) -> error::Result<()> {
+        self.comment = replace_char_range(
+            self.comment.as_str(),
+            offset,
+            count,
+            comment,
+            XmlComment::check,
+        )?;
         Ok(())
     }
 
@@ -3622,13 +3638,18 @@ impl XmlText {
         self.text = delete_char_range(self.text.as_str(), offset, count);
     }
 
-    pub fn insert(&mut self, offset: usize, text: &str) -> error::Result<()> {
-        fn check(value: &str) -> error::Result<bool> {
-            let (rest, content) = xml_parser::content(value)?;
-            Ok(rest.is_empty() && content.children.is_empty())
-        }
+    fn check(value: &str) -> error::Result<bool> {
+        let (rest, content) = xml_parser::content(value)?;
+        Ok(rest.is_empty() && content.children.is_empty())
+    }
 
-        self.text = insert_char_at(self.text.as_str(), offset, text, check)?;
+    pub fn insert(&mut self, offset: usize, text: &str) -> error::Result<()> {
+        self.text = insert_char_at(self.text.as_str(), offset, text, XmlText::check)?;
+        Ok(())
+    }
+
+    pub fn replace(&mut self, offset: usize, count: usize, text: &str) -> error::Result<()> {
+        self.text = replace_char_range(self.text.as_str(), offset, count, text, XmlText::check)?;
         Ok(())
     }
 
@@ -4558,6 +4579,26 @@ fn external_id(id: &parser::ExternalId) -> (String, Option<String>) {
         parser::ExternalId::Public(p, s) => (s.to_string(), Some(p.to_string())),
         parser::ExternalId::System(s) => (s.to_string(), None),
     }
+}
+
+/// Replaces `count` characters at `offset` by `new` (both clipped to the length of `value`).
+/// Nothing is deleted when `new` is refused.
+fn replace_char_range<F>(
+    value: &str,
+    offset: usize,
+    count: usize,
+    new: &str,
+    check: F,
+) -> error::Result<String>
+where
+    F: Fn(&str) -> error::Result<bool>,
+{
+    if !check(new)? {
+        return Err(error::Error::InvalidData(new.to_string()));
+    }
+
+    let deleted = delete_char_range(value, offset, count);
+    insert_char_at(deleted.as_str(), offset, new, |_| Ok(true))
 }
 
 fn insert_char_at<F>(value: &str, offset: usize, new: &str, check: F) -> error::Result<String>
